@@ -51,6 +51,7 @@ func shortFile(f string) string {
 }
 
 type Gen struct {
+	sliceLos []string // lower bounds of slice expressions seen so far (instantiation candidates)
 	*Ctx
 	fn      *ssa.Function
 	con     *Contract
@@ -135,6 +136,13 @@ func newGen(ctx *Ctx, fn *ssa.Function, con *Contract) *Gen {
 		safeCtr: map[string]int{}, unmodelled: map[string]bool{}, allocsByName: map[string][]*ssa.Alloc{}, constLen: map[string]int64{}, maskBit: map[string]string{},
 		backEdges: map[[2]int]bool{}, loopDec: map[*loopInfo]string{}, loopHeadState: map[*loopInfo]*State{}}
 	g.pa = con.Level == "PA"
+	ctx.etypeSorts = sharedElemSorts(ctx, fn)
+	ctx.sideFact = func(term string, t types.Type, alloc string) {
+		g.addFact(g.rangeFact(term, t))
+		if alloc != "" {
+			g.addFact(g.allocBound(term, t, alloc))
+		}
+	}
 	return g
 }
 
@@ -1329,4 +1337,68 @@ func (g *Gen) immutableCapture(fv *ssa.FreeVar) bool {
 		}
 	}
 	return false
+}
+
+// sharedElemSorts finds the SMT sorts that are the element sort of slices with different element
+// types in fn (parameters, values, and fields of the structs they point to): only for those the
+// model needs to know that backing arrays of different element types are distinct.
+func sharedElemSorts(c *Ctx, fn *ssa.Function) map[string]bool {
+	bySort := map[string]map[string]bool{}
+	seen := map[types.Type]bool{}
+	var visit func(t types.Type, depth int)
+	visit = func(t types.Type, depth int) {
+		if t == nil || seen[t] || depth > 3 {
+			return
+		}
+		seen[t] = true
+		switch u := t.Underlying().(type) {
+		case *types.Slice:
+			et := u.Elem()
+			if b, ok := et.(*types.Basic); ok {
+				et = types.Typ[b.Kind()]
+			}
+			func() {
+				defer func() { recover() }()
+				so := c.sortOf(et)
+				if bySort[so] == nil {
+					bySort[so] = map[string]bool{}
+				}
+				bySort[so][types.TypeString(et, nil)] = true
+			}()
+			visit(u.Elem(), depth+1)
+		case *types.Pointer:
+			visit(u.Elem(), depth+1)
+		case *types.Struct:
+			if opaqueStruct(t) {
+				return
+			}
+			for i := 0; i < u.NumFields(); i++ {
+				visit(u.Field(i).Type(), depth+1)
+			}
+		case *types.Tuple:
+			for i := 0; i < u.Len(); i++ {
+				visit(u.At(i).Type(), depth+1)
+			}
+		}
+	}
+	for _, p := range fn.Params {
+		visit(p.Type(), 0)
+	}
+	for _, fv := range fn.FreeVars {
+		visit(fv.Type(), 0)
+	}
+	for _, b := range fn.Blocks {
+		for _, in := range b.Instrs {
+			if v, ok := in.(ssa.Value); ok {
+				visit(v.Type(), 0)
+			}
+		}
+	}
+	out := map[string]bool{}
+	for so, ts := range bySort {
+		if len(ts) > 1 {
+			out[so] = true
+		}
+	}
+	return out
 }
